@@ -102,11 +102,23 @@ fn main() {
             _ => "cap",
         };
         let slots: Vec<Value> = c["slots"].as_array().unwrap().clone();
+        let after_panic = c["after_panic"].as_bool().unwrap_or(false);
         let log = Arc::new(Mutex::new(vec![]));
         let d = Dispatch::new(Rec { mode, cap: c["cap"].as_u64().unwrap_or(0), log: log.clone() });
         let r = vh_common::catch(|| {
             dispatch::with_default(&d, || {
                 let ctx = Ctx::from_slots(&slots, tracing::span!(tracing::Level::ERROR, "vh_parent"));
+                if after_panic {
+                    // an earlier emission on this thread panicked inside the collector's visitor (a field whose Debug panics);
+                    // the panic was caught: this callsite must be unaffected
+                    struct Grumpy;
+                    impl std::fmt::Debug for Grumpy {
+                        fn fmt(&self, _: &mut std::fmt::Formatter<'_>) -> std::fmt::Result {
+                            panic!("a field's Debug impl panics")
+                        }
+                    }
+                    let _ = vh_common::catch(|| tracing::error!(grumpy = ?Grumpy));
+                }
                 log.lock().unwrap().clear();
                 corpus::SITES[cs](&ctx);
                 let ev = ctx.evals.borrow().clone();
